@@ -283,8 +283,8 @@ VARIANTS = [
     V("seed-C15-m3-builtin-filter-all-defs", [("@patch", "seeded/C15-m3/patch.diff")], {"C15": "LOOKUP:check::specialize_nonterminals:plain-definition-overrides-builtin"}),
     V("seed-C06-m2-flatten-skips-fallback", [("@patch", "seeded/C06-m2/patch.diff")], {"C06": "TC:parse::flatten_expr:Fallback.children"}),
     V("seed-C06-m3-cycle-check-early-return", [("@patch", "seeded/C06-m3/patch.diff")], {"C06": "SKIPS:check::get_nonterminals_resolution_order:return-ok", "C08": "SKIPS:check::get_nonterminals_resolution_order:return-ok"}),
-    V("seed-C08-m1-visited-filter", [("@patch", "seeded/C08-m1/patch.diff")], {"C08": "SKIPS:regex::Regex::do_check_ambiguous_inputs_tail_only_subword:filter"}),
-    V("seed-C09-m1-undescribed-exempt", [("@patch", "seeded/C09-m1/patch.diff")], {"C09": "SKIPS:dfa::DFA::do_check_ambiguity_best_effort:continue", "C08": "SKIPS:dfa::DFA::do_check_ambiguity_best_effort:continue"}),
+    V("seed-C08-m1-visited-filter", [("@patch", "seeded/C08-m1/patch.diff")], {"C08": "SKIPS:regex::Regex::do_check_ambiguous_inputs_tail_only_subword:skip"}),
+    V("seed-C09-m1-undescribed-exempt", [("@patch", "seeded/C09-m1/patch.diff")], {"C09": "SKIPS:dfa::DFA::do_check_ambiguity_best_effort:skip", "C08": "SKIPS:dfa::DFA::do_check_ambiguity_best_effort:skip"}),
     V("seed-C10-m3-static-oncelock", [("@patch", "seeded/C10-m3/patch.diff")], {"C10": "GLOBALSTATE:"}),
     V("seed-C13-m3-tail-takes-first", [("@patch", "seeded/C13-m3/patch.diff")], {"C13": "ENDS:check::expr_get_tail:Sequence"}),
     V("skips-rename-locals-benign", [("src/check.rs", "let mut visited: UstrSet = Default::default();\n    let mut result: Vec<Ustr> = Default::default();", "let mut seen_vertices: UstrSet = Default::default();\n    let mut result: Vec<Ustr> = Default::default();"), ("src/check.rs", "&mut visited,\n            &mut result,\n        )?;\n        path.clear();\n        result.push(vertex);", "&mut seen_vertices,\n            &mut result,\n        )?;\n        path.clear();\n        result.push(vertex);"), ("src/check.rs", "debug_assert!(!visited.contains(&vertex));", "debug_assert!(!seen_vertices.contains(&vertex));"), ("src/check.rs", "        if visited.contains(vertex) {\n            continue;\n        }\n        path.push((\n            *vertex,", "        if seen_vertices.contains(vertex) {\n            continue;\n        }\n        path.push((\n            *vertex,"), ("src/check.rs", "&mut visited,\n            &mut result,\n        )?;\n        path.clear();\n        result.push(*vertex);", "&mut seen_vertices,\n            &mut result,\n        )?;\n        path.clear();\n        result.push(*vertex);")], {"C08": None, "C06": None}),
